@@ -15,10 +15,11 @@ try:
     dest = m.group(1)
     stem = os.path.splitext(os.path.basename(dest))[0]
     pkg = dest.split("/")[1]
+    feat = " --features preserve_order" if "--features preserve_order" in demo else ""
     if "/examples/" in dest:
-        run = "cargo run -q -p %s --example %s --offline" % (pkg, stem)
+        run = "cargo run -q -p %s --example %s --offline%s" % (pkg, stem, feat)
     else:
-        run = "cargo test -q -p %s --test %s --offline" % (pkg, stem)
+        run = "cargo test -q -p %s --test %s --offline%s" % (pkg, stem, feat)
     os.makedirs(os.path.dirname(os.path.join(wt, dest)), exist_ok=True)
     shutil.copy(os.path.join(seed, "demo.rs"), os.path.join(wt, dest))
     rc_clean, out_clean = sh(run, wt)
